@@ -476,7 +476,17 @@ func ruleResolveWritesNothing(w *World, r *Report, rule string) {
 	info := fi.Pkg.TypesInfo // helpers are in the same package: one types.Info
 	may := Spec{Must: false, Global: globalPrefixes("ins:"), Stop: stop,
 		Node: func(n ast.Node, in Facts) (gen, kill []string) {
-			if _, ok := n.(*ast.DeferStmt); ok {
+			if d, ok := n.(*ast.DeferStmt); ok {
+				// a deferred retire runs when this function returns, whatever happens next:
+				// what was recorded before (by a caller) is retired before control gets back
+				var body ast.Node = d.Call
+				if lit, ok := unparen(d.Call.Fun).(*ast.FuncLit); ok {
+					body = lit.Body
+				}
+				_, del := effects(info, body, true)
+				for _, f := range del {
+					kill = append(kill, "ins:"+f)
+				}
 				return
 			}
 			ins, del := effects(info, n, false)
